@@ -837,7 +837,7 @@ static int run_history(int fd, const char *prefix, int want_trace) {
         snprintf(path, sizeof(path), "%s.h%d.clientlog", prefix, g_plan.h);
         dump_log(path);
     }
-    return nv ? 1 : stuck ? 3 : 0;
+    return stuck ? 3 : nv ? 1 : 0;
 }
 
 /* append the child's trace to the batch trace with seq rebased so that histories stay apart and ordered */
@@ -899,10 +899,19 @@ int main(int argc, char **argv) {
     }
     unsetenv("SVT_VERIF_TRACE");
     unsetenv("SVT_VERIF_SCHED");
-    int worst = 0;
+    int worst = 0, stuck_seen = 0;
     for (int k = 0; k < count; k++) {
         int h = first + k;
         make_plan(seed, h, cls, sched);
+        /* a batch that keeps wedging is not worth the full patience: the verdict of a wedged history comes from
+         * the state it is in (or is "inconclusive"), never from how long we waited */
+        if (stuck_seen >= 3 && g_stuck_us > 2000000)
+            g_stuck_us = 2000000;
+        if (stuck_seen >= 10) {
+            dprintf(res_fd, "{\"h\":%d,\"cls\":\"%s\",\"verdict\":\"batch-aborted\",\"remaining\":%d}\n", h, cls_names[cls],
+                    count - k);
+            break;
+        }
         if (!use_fork) {
             int rc = run_history(res_fd, prefix, want_trace);
             if (want_trace)
@@ -941,8 +950,12 @@ int main(int argc, char **argv) {
                     h, cls_names[cls], WTERMSIG(status), g_plan.nobj, g_plan.nprod, g_plan.ncons, g_plan.nb_permille,
                     g_plan.shutdown_after, g_plan.T);
             worst = 1;
-        } else if (done == 1 && WEXITSTATUS(status) > worst)
-            worst = WEXITSTATUS(status);
+        } else if (done == 1) {
+            stuck_seen += WEXITSTATUS(status) == 3;
+            if (WEXITSTATUS(status) > worst)
+                worst = WEXITSTATUS(status);
+        } else
+            stuck_seen++;
         if (want_trace)
             merge_trace(prefix, h, (uint64_t)k, tr_fd);
     }
